@@ -42,7 +42,10 @@ check("C10",
            "Lexicon::specifiers(name) and decomposed (exact, no repeats, order-independent, injective); binary laws "
            "| & ^ implies |= &= ^= against a uint32 mask model on every pair (A any, B of size or co-size <= 2) in quick and on "
            "ALL 2^36 pairs in thorough; 17+3 named accessors; every non-basic reserved word, the invisible logogram and "
-           "dynamic logograms must be refused. distinct_nontrivial = non-empty subsets enumerated.",
+           "dynamic logograms must be refused; request histories: ALL ordered pairs over {specifiers, qualifiers} x {56 reserved "
+           "words, invisible, dynamic} and all ordered triples over a reduced alphabet (every basic name in both families + 4/12 "
+           "others): each answer (value or refusal) must be what the name alone determines. distinct_nontrivial = non-empty subsets "
+           "enumerated.",
       text="The finite configuration space of the property is closed completely (unary laws in both tiers, binary "
            "laws in thorough) on the real Lexicon and the real header operators, against a bitmask reference model.",
       note="The list of 18 basic names and 56 reserved words is written down in the harness from the interface "
@@ -69,7 +72,9 @@ check("C11",
            "<= 3 (quick) / <= 5 (thorough) successive get_qualified requests over the 7 non-empty qualifier sets, x {direct "
            "request first / last} x {unrelated constructions interleaved / not}, on a fresh Lexicon: every prefix result is the "
            "node of get_qualified(union, T), qualifiers()==union, main_variant()==T and is not a Qualified, the empty set is "
-           "refused at every stage and changes nothing. distinct_nontrivial = distinct (base, union, length) triples.",
+           "refused at every stage and changes nothing; after each chain all 7 sets are requested directly over the same T, twice "
+           "(own node each, found again); plus all 7! orders of the seven direct requests over one type. distinct_nontrivial = "
+           "distinct (base, union, length) triples.",
       text="The complete space of qualification chains up to the bound is executed on the real type factory and "
            "compared with the normal form the interface documents.",
       note="'refused' = any exception. Only the seven subsets of {const, volatile, restrict} exist as qualifier values.",
@@ -297,6 +302,30 @@ check("C18",
       technique="complete enumeration of node kind x printer entry point and of statement trees up to a depth bound on the "
                 "implementation, sandboxed executions with outcome classification",
       engine="zoo", design="3/C18", deadline={"quick": 200, "thorough": 1500})
+
+check("C05",
+      passes=[dict(name="C05", src=["harness/C05.cpp"] + ENV, shared=ZOO, deps=ZOO_DEPS, variant="fast", shards={"quick": 16, "thorough": 16}),
+              dict(name="C05asan", src=["harness/C05.cpp"] + ENV, shared=ZOO, deps=ZOO_DEPS, variant="asan", shards={"quick": 16, "thorough": 16},
+                   args={"quick": ["--asan"], "thorough": ["--asan"]})],
+      rule="(A) every entry of the factory table + internals is fingerprinted through every accessor of its interface (nodes named by "
+           "creation index), then the table is rebuilt 11 times with every other operand rotation in units of their own on the same "
+           "Lexicon and every fingerprint is recomputed: byte-identical; generative rows pairwise distinct (4 quick / 12 thorough base "
+           "rotations). (B) EVERY ordered history of <= 4 (quick) / <= 5 (thorough) operations (one less under ASan) over a 21-operation alphabet, one per "
+           "storage mechanism (farm, tree, string pool, unified literal, symbol keyed on name+type, enumerators, parameters, bases, "
+           "handlers, module units, pragma tokens, captures, using-designators, scope members, redeclaration, expression-list members, "
+           "warehouse product with the warehouse destroyed and its storage scribbled, sub-region, class fields, block statements, "
+           "binding names): after EVERY step every node returned so far is re-read through every accessor -- identical, except that "
+           "a container the step added to may only have grown at its end (model vectors of member addresses), and generative "
+           "constructors return addresses distinct from all live nodes. (C) 1100 (5000) additions per member-sequence kind interleaved "
+           "with two other factories, re-observed at every 2^k-1, 2^k, 2^k+1; 70000 words through the string pool; 20000 (100000) tree "
+           "keys. All of it again under ASan+UBSan with smaller bounds. distinct_nontrivial = histories repeating an operation.",
+      text="Every operation history up to the bound on the real factories, with every earlier node re-observed after every "
+           "step against its recorded fingerprint; sanitizers catch references into relocated or freed storage.",
+      note="A fingerprint names nodes by creation index, never by address. Which snapshots a step may extend is stated per "
+           "operation; all others must be byte-identical.",
+      technique="exhaustive enumeration of operation histories up to a depth bound on the implementation, whole-state re-observation "
+                "after every step against recorded fingerprints",
+      engine="explore", design="3/C05", deadline={"quick": 200, "thorough": 1500})
 
 # Properties not claimed (with the reason that goes to MANIFEST.not_applicable).
 NOT_CLAIMED = {}
